@@ -33,7 +33,6 @@ SampleOK(e) ==
        /\ e.i = Search(e.tab, e.ru)                         \* the code took the model's path
        /\ e.ru <= e.tab[e.i + 1]                             \* inverse-CDF bracket on the abstraction
        /\ (e.i > 0 => e.tab[e.i] <= e.ru)
-       /\ (e.cls = "Z" => NonDec(e.tab))                     \* side condition of C18 expressible here
 
 Init == l = 1 /\ TLCSet(1, 1)
 Samp == IsEv("s") /\ SampleOK(Ev) /\ l' = l + 1
